@@ -68,6 +68,7 @@ def dispElem : Val → String
 def shownText : Shown → String
   | .atom v => s!"{tyName v.ty} {dispTop v}"
   | .lst vs => "List [" ++ ", ".intercalate (vs.map dispElem) ++ "]"
+  | .parts vs => "[" ++ "|".intercalate (vs.map dispTop) ++ "]"
 
 def evText (e : Ev) : String :=
   match e.arg with
@@ -112,6 +113,7 @@ partial def parseE : Sexp → Option E
   | .list [.atom "assign", x, e] => do pure (.assign (← x.nat?) (← parseE e))
   | .list [.atom "emit", t] => do pure (.emit (← t.nat?) none)
   | .list [.atom "emit", t, e] => do pure (.emit (← t.nat?) (some (← parseE e)))
+  | .list (.atom "emiti" :: t :: es) => do pure (.emitI (← t.nat?) (← parseEs es))
   | .list (.atom "mklist" :: es) => do pure (.mkList (← parseEs es))
   | .list [.atom "mkobj", c] => c.nat?.map E.mkObj
   | .list [.atom "index", l, i] => do pure (.index (← parseE l) (← parseE i))
